@@ -678,6 +678,17 @@ theorem stepExit_G6 {r : Fin n} {s s' : St n} (h : G6 r s) (v : Fin n) (hs : ste
     · intro p src hc hrf; exact h.rp p src (hic p src hc) hrf
   · cases hs
 
+theorem stepTend_G6 {r : Fin n} {s s' : St n} (h : G6 r s) (v : Fin n) (hs : stepTend r s v = some s') : G6 r s' := by
+  unfold stepTend at hs
+  split at hs
+  · rename_i hg; cases hs
+    have hrv : r ≠ v := fun e => hg.2.1 e.symm
+    refine h.same rfl rfl rfl rfl rfl rfl rfl rfl rfl rfl ?_
+    intro hh; unfold actR at hh ⊢
+    show actPc (upd s.pc v .gone r) = true
+    rw [upd_other _ _ _ _ hrv]; exact hh
+  · cases hs
+
 theorem init_G6 (r : Fin n) : G6 r (init r) := by
   refine ⟨?_, ?_, ?_, ?_, ?_, ?_, ?_, ?_⟩
   · intro p _; simp [init, okOrder]
@@ -700,6 +711,7 @@ theorem step_G6 {r : Fin n} {s s' : St n} (h1 : G1 r s) (h3 : G3 r s) (h4 : G4 r
   | searchResult v => exact stepSearchResult_G6 h1 h4 h v hs
   | searchLeave v m => exact stepSearchLeave_G6 h1 h v m hs
   | spawn v p => exact stepSpawn_G6 h v p hs
+  | tend v => exact stepTend_G6 h v hs
   | exit v => exact stepExit_G6 h v hs
   | eRdPre x => exact (stepEmisc_G6 h1 h).1 x hs
   | eRd x b => exact (stepEmisc_G6 h1 h).2.1 x b hs
